@@ -19,8 +19,10 @@
 #include <cctype>
 #include <cstdint>
 #include <string>
+#include <type_traits>
 #include <utility>
 
+#include "runtime/cpp/emboss_bit_util.h"
 #include "runtime/cpp/emboss_defines.h"
 #include "runtime/cpp/emboss_view_parameters.h"
 
@@ -59,12 +61,12 @@ class EnumView final {
   // TODO(bolms): Here and in CouldWriteValue(), the static_casts to ValueType
   // rely on implementation-defined behavior when ValueType is signed.
   ValueType Read() const {
-    ValueType result = static_cast<ValueType>(buffer_.ReadUInt());
+    ValueType result = FromBits(buffer_.ReadUInt());
     EMBOSS_CHECK(Parameters::ValueIsOk(result));
     return result;
   }
   ValueType UncheckedRead() const {
-    return static_cast<ValueType>(buffer_.UncheckedReadUInt());
+    return FromBits(buffer_.UncheckedReadUInt());
   }
   void Write(ValueType value) const {
     const bool result = TryToWrite(value);
@@ -74,33 +76,17 @@ class EnumView final {
   bool TryToWrite(ValueType value) const {
     if (!CouldWriteValue(value)) return false;
     if (!IsComplete()) return false;
-    buffer_.WriteUInt(static_cast<typename BitViewType::ValueType>(value));
+    buffer_.WriteUInt(ToBits(value));
     return true;
   }
   static constexpr bool CouldWriteValue(ValueType value) {
-    // The value can be written if:
-    //
-    // a) it can fit in BitViewType::ValueType (verified by casting to
-    //    BitViewType::ValueType and back, and making sure that the value is
-    //    unchanged)
-    //
-    // and either:
-    //
-    // b1) the field size is large enough to hold all values, or
-    // b2) the value is less than 2**(field size in bits)
-    return value == static_cast<ValueType>(
-                        static_cast<typename BitViewType::ValueType>(value)) &&
-           ((Parameters::kBits ==
-             sizeof(typename BitViewType::ValueType) * 8) ||
-            (static_cast<typename BitViewType::ValueType>(value) <
-             ((static_cast<typename BitViewType::ValueType>(1)
-               << (Parameters::kBits - 1))
-              << 1))) &&
-           Parameters::ValueIsOk(value);
+    // The value can be written if the low kBits bits of its representation
+    // read back as the same value: for an unsigned enum that means value <
+    // 2**kBits, for a signed enum -(2**(kBits-1)) <= value < 2**(kBits-1).
+    return FromBits(ToBits(value)) == value && Parameters::ValueIsOk(value);
   }
   void UncheckedWrite(ValueType value) const {
-    buffer_.UncheckedWriteUInt(
-        static_cast<typename BitViewType::ValueType>(value));
+    buffer_.UncheckedWriteUInt(ToBits(value));
   }
 
   template <typename OtherView>
@@ -150,6 +136,32 @@ class EnumView final {
   static constexpr int SizeInBits() { return Parameters::kBits; }
 
  private:
+  using UnderlyingType = typename ::std::underlying_type<ValueType>::type;
+  using UnsignedUnderlyingType =
+      typename ::std::make_unsigned<UnderlyingType>::type;
+  static constexpr unsigned kUnusedBits =
+      sizeof(UnderlyingType) * 8 - Parameters::kBits;
+
+  // Enum values are read the same way as Int or UInt: a signed enum in a field
+  // narrower than its C++ type is sign-extended, exactly like IntView does.
+  static constexpr ValueType FromBits(typename BitViewType::ValueType data) {
+    return static_cast<ValueType>(
+        ::std::is_signed<UnderlyingType>::value
+            ? static_cast<UnderlyingType>(
+                  static_cast<UnderlyingType>(
+                      static_cast<UnsignedUnderlyingType>(data)
+                      << kUnusedBits) >>
+                  kUnusedBits)
+            : static_cast<UnderlyingType>(data));
+  }
+
+  static constexpr typename BitViewType::ValueType ToBits(ValueType value) {
+    return static_cast<typename BitViewType::ValueType>(MaskToNBits(
+        static_cast<UnsignedUnderlyingType>(
+            static_cast<UnderlyingType>(value)),
+        Parameters::kBits));
+  }
+
   BitViewType buffer_;
 };
 
